@@ -1,13 +1,14 @@
 #!/bin/bash
-# trymut.sh <patch-or-"revert:<commit>"> <property> [tier]  — apply a change to /repo, run a check, undo it.
+# trymut.sh <patch-or-"revert:<commit>"> <property> [tier]  — apply a change to a scratch clone of /repo (HEAD),
+# run a check against it (VERIF_REPO), remove the clone. /repo itself is never touched. Writes no evidence.
 P="$1"; ID="$2"; TIER="${3:-quick}"
-cd /repo || exit 2
-if [ -n "$(git status --porcelain)" ]; then echo "repo dirty"; exit 2; fi
+case "$P" in revert:*) ;; /*) ;; *) P="$(pwd)/$P" ;; esac
+SCR=$(mktemp -d /tmp/trymut.XXXXXX); trap 'rm -rf "$SCR"' EXIT
+git clone -q /repo "$SCR/repo" || exit 2
+cd "$SCR/repo" || exit 2
 case "$P" in
-  revert:*) git revert --no-commit "${P#revert:}" >/dev/null 2>&1 || { echo "revert failed"; git revert --abort 2>/dev/null; git checkout -- .; exit 2; } ;;
+  revert:*) git revert --no-commit "${P#revert:}" >/dev/null 2>&1 || { echo "revert failed"; exit 2; } ;;
   *) git apply "$P" || { echo "apply failed"; exit 2; } ;;
 esac
-cd /verif && VERIF_BUDGET_S="${VERIF_BUDGET_S:-}" ./check "$ID" "$TIER" 2>&1 | grep -v "^dsim:   scenario\|^dsim: faults\|^dsim: probes" | tail -${TAILN:-8}
-rc=${PIPESTATUS[0]}
-cd /repo && { git revert --abort 2>/dev/null; git reset -q --hard HEAD; git status --porcelain | grep -v '^??' ; }
-exit $rc
+cd /verif && VERIF_REPO="$SCR/repo" VERIF_NO_EVIDENCE=1 VERIF_BUDGET_S="${VERIF_BUDGET_S:-}" ./check "$ID" "$TIER" 2>&1 | grep -v "^dsim:   scenario\|^dsim: faults\|^dsim: probes" | tail -${TAILN:-8}
+exit ${PIPESTATUS[0]}
